@@ -330,7 +330,9 @@ func c30Case(rt *rapid.T, rec *evid.Rec, fatalf func(string, ...any)) {
 			labels["older_revocation_after_newer"] = true
 			history = append(history, fmt.Sprintf("older revocation of %s (ts -%v, ttl %ds) after the active one", i, time.Since(ts), ttl))
 			if rapid.Bool().Draw(rt, "waitPastOlder") {
-				d := time.Until(ts.Add(time.Duration(ttl)*time.Second)) + 2*time.Second
+				// whole seconds only: the clock keeps its quarter-second offset from the instants on which
+				// revocations and segments expire
+				d := time.Until(ts.Add(time.Duration(ttl)*time.Second)).Truncate(time.Second) + 3*time.Second
 				if d > 0 && time.Now().Add(d).Before(revs[i].exp) {
 					time.Sleep(d)
 					history = append(history, fmt.Sprintf("advance %v", d))
